@@ -1,2 +1,188 @@
-(* C15 — placeholder, replaced below *)
-From WK Require Import Base.Base Model.RuntimeMeta Model.RuntimeMeta_C15.
+(* C15 — Channel routing metadata never regresses.
+   Only statements, each closed by [exact] of a lemma from Proof/RuntimeMeta*.v.
+
+   Vocabulary (Model/RuntimeMeta.v, Model/RuntimeMeta_C15.v):
+     resolveMonotonicChannelRuntimeMeta, normalizeChannelRuntimeMeta, ... transcribe
+     pkg/db/meta/table_runtime_meta.go;  c15_op / c15_step / c15_exec are the public
+     meta.Shard and meta.WriteBatch operations on runtime-metadata rows and the store
+     after a history starting from an empty DB;  [runtime_meta_advances a b] is
+     "row a was replaced by row b without regressing" (the relation C15_monitor
+     checks on the implementation's GetChannelRuntimeMeta observations).
+
+   Reading of the property text fixed in DESIGN.md §7: the pair
+   (ChannelEpoch, LeaderEpoch) is non-decreasing lexicographically (the code
+   accepts a higher channel epoch carrying a lower leader epoch, see
+   c15_leader_epoch_only_lexicographic), and the strict route-generation
+   increase excludes the saturation value 2^64-1 of nextChannelRouteGeneration
+   (c15_route_generation_saturates). *)
+From WK Require Import Base.Base Gen.Consts_C15 Model.RuntimeMeta Model.RuntimeMeta_C15
+  Proof.RuntimeMeta Proof.RuntimeMeta_C15.
+Open Scope N_scope.
+
+(* ---- the resolver, all rows and candidates ---------------------------------------- *)
+
+(* an accepted write returns a row that advances the stored (normalized) row, and
+   its candidate was not older than the stored row nor switching the leader
+   inside unchanged epochs *)
+Theorem c15_resolve_applied_advances : forall existing candidate next,
+  resolveMonotonicChannelRuntimeMeta existing true candidate = (next, MonotonicApplied) ->
+  runtime_meta_advances (normalizeChannelRuntimeMeta existing) next = true
+  /\ candidate_not_regressing (normalizeChannelRuntimeMeta existing) candidate = true.
+Proof. exact resolve_applied_advances. Qed.
+Print Assumptions c15_resolve_applied_advances.
+
+(* every other outcome is IgnoredStale or Conflict and returns the stored row *)
+Theorem c15_resolve_rejected_returns_stored : forall existing candidate next result,
+  resolveMonotonicChannelRuntimeMeta existing true candidate = (next, result) ->
+  result <> MonotonicApplied ->
+  (result = MonotonicIgnoredStale \/ result = MonotonicConflict)
+  /\ next = normalizeChannelRuntimeMeta existing.
+Proof. exact resolve_rejected_returns_stored. Qed.
+Print Assumptions c15_resolve_rejected_returns_stored.
+
+(* ---- arbitrary histories of Shard / WriteBatch operations ----------------------------
+   In the next six theorems: [a] is the row of key k after the history [pre]
+   (from an empty DB), [b] the row of k after [pre ++ ops], and no operation of
+   [ops] deletes k (a direct delete of k or a batch containing one). *)
+
+Theorem c15_history_advances : forall pre ops k a b,
+  store_get (c15_exec [] pre) k = Some a ->
+  (forall op, In op ops -> op_deletes op k = false) ->
+  store_get (c15_exec [] (pre ++ ops)) k = Some b ->
+  runtime_meta_advances a b = true.
+Proof. exact clause_advances. Qed.
+Print Assumptions c15_history_advances.
+
+(* channel epoch never decreases; leader epoch never decreases within a channel epoch *)
+Theorem c15_epochs_monotone : forall pre ops k a b,
+  store_get (c15_exec [] pre) k = Some a ->
+  (forall op, In op ops -> op_deletes op k = false) ->
+  store_get (c15_exec [] (pre ++ ops)) k = Some b ->
+  rm_channel_epoch a < rm_channel_epoch b
+  \/ (rm_channel_epoch a = rm_channel_epoch b /\ rm_leader_epoch a <= rm_leader_epoch b).
+Proof. exact clause_epochs. Qed.
+Print Assumptions c15_epochs_monotone.
+
+(* same epochs: the leader is the same and the lease was not shortened *)
+Theorem c15_same_epoch_leader_fixed_lease_not_shortened : forall pre ops k a b,
+  store_get (c15_exec [] pre) k = Some a ->
+  (forall op, In op ops -> op_deletes op k = false) ->
+  store_get (c15_exec [] (pre ++ ops)) k = Some b ->
+  rm_channel_epoch a = rm_channel_epoch b -> rm_leader_epoch a = rm_leader_epoch b ->
+  rm_leader a = rm_leader b /\ (rm_lease_until_ms a <= rm_lease_until_ms b)%Z.
+Proof. exact clause_same_epochs. Qed.
+Print Assumptions c15_same_epoch_leader_fixed_lease_not_shortened.
+
+(* retention boundary and write-fence version never decrease *)
+Theorem c15_retention_fence_monotone : forall pre ops k a b,
+  store_get (c15_exec [] pre) k = Some a ->
+  (forall op, In op ops -> op_deletes op k = false) ->
+  store_get (c15_exec [] (pre ++ ops)) k = Some b ->
+  rm_retention_through_seq a <= rm_retention_through_seq b
+  /\ rm_write_fence_version a <= rm_write_fence_version b.
+Proof. exact clause_retention_fence. Qed.
+Print Assumptions c15_retention_fence_monotone.
+
+(* the route generation never decreases, and any difference in the 14 route
+   fields (epochs, leader, replicas, ISR, MinISR, status, lease, retention
+   boundary and time, the four fence fields) comes with a strictly larger route
+   generation, below the saturation point *)
+Theorem c15_route_generation_strict : forall pre ops k a b,
+  store_get (c15_exec [] pre) k = Some a ->
+  (forall op, In op ops -> op_deletes op k = false) ->
+  store_get (c15_exec [] (pre ++ ops)) k = Some b ->
+  rm_route_generation a <= rm_route_generation b
+  /\ (runtimeRouteChanged a b = true -> rm_route_generation a <> u64max ->
+      rm_route_generation a < rm_route_generation b).
+Proof. exact clause_route_generation. Qed.
+Print Assumptions c15_route_generation_strict.
+
+(* a step that reports stale / conflict / any error / a failed Commit leaves the
+   whole store unchanged (any store) *)
+Theorem c15_rejects_leave_row : forall s op o s',
+  c15_step s op = (o, s') -> obs_rejected o = true -> s' = s.
+Proof. exact rejected_unchanged. Qed.
+Print Assumptions c15_rejects_leave_row.
+
+(* a direct upsert whose candidate is older than the stored row, or switches the
+   leader inside unchanged epochs, is reported rejected and changes nothing *)
+Theorem c15_regressing_write_rejected : forall pre hash_slot m stored,
+  let s := c15_exec [] pre in
+  store_get s (meta_key hash_slot m) = Some stored ->
+  candidate_not_regressing stored m = false ->
+  obs_rejected (fst (shard_upsert s hash_slot m)) = true /\ snd (shard_upsert s hash_slot m) = s.
+Proof. exact regressing_upsert_rejected. Qed.
+Print Assumptions c15_regressing_write_rejected.
+
+(* every stored row is in normal form (so the codec's normalization is the identity) *)
+Theorem c15_stored_rows_normalized : forall pre k m,
+  store_get (c15_exec [] pre) k = Some m -> normalizeChannelRuntimeMeta m = m.
+Proof. exact reachable_rows_normalized. Qed.
+Print Assumptions c15_stored_rows_normalized.
+
+(* ---- the monitor evaluated on implementation traces accepts every model trace ------------ *)
+
+Theorem c15_model_satisfies_monitor : forall keys ops,
+  C15_monitor (C15History keys (c15_run keys [] ops)) = 0.
+Proof. exact history_model_satisfies_monitor. Qed.
+Print Assumptions c15_model_satisfies_monitor.
+
+Theorem c15_resolve_model_satisfies_monitor : forall existing exists_ candidate,
+  C15_monitor (C15Resolve existing exists_ candidate
+                 (normalizeChannelRuntimeMeta existing) (normalizeChannelRuntimeMeta candidate)
+                 (fst (resolveMonotonicChannelRuntimeMeta existing exists_ candidate))
+                 (snd (resolveMonotonicChannelRuntimeMeta existing exists_ candidate))
+                 (validateChannelRuntimeMeta candidate)) = 0.
+Proof. exact resolve_model_satisfies_monitor. Qed.
+Print Assumptions c15_resolve_model_satisfies_monitor.
+
+(* ---- Examples: the hypotheses are satisfiable, and the boundary cases ------------------------ *)
+
+(* a leader change with a new leader epoch is accepted and bumps the route generation 5 -> 6 *)
+Example c15_example_history :
+  let pre := [OpUpsert 3 (example_row 1 1 5 1 100%Z)] in
+  let ops := [OpUpsert 3 (example_row 1 2 0 2 50%Z)] in
+  store_get (c15_exec [] pre) example_key = Some (example_row 1 1 5 1 100%Z)
+  /\ store_get (c15_exec [] (pre ++ ops)) example_key = Some (example_row 1 2 6 2 50%Z).
+Proof. vm_compute. split; reflexivity. Qed.
+
+(* same epochs: a leader switch is a conflict, a shorter lease is clamped *)
+Example c15_example_conflict_and_clamp :
+  let s := c15_exec [] [OpUpsert 3 (example_row 1 1 5 1 100%Z)] in
+  fst (c15_step s (OpUpsert 3 (example_row 1 1 0 2 100%Z))) = ObsUpsert MonotonicConflict EConflict
+  /\ store_get (snd (c15_step s (OpUpsert 3 (example_row 1 1 0 1 50%Z)))) example_key
+     = Some (example_row 1 1 5 1 100%Z).
+Proof. vm_compute. split; reflexivity. Qed.
+
+(* c15_delete_then_create: after a delete the next write is unconstrained — the
+   reason the theorems (and the monitor) exclude steps that delete the key *)
+Example c15_delete_then_create :
+  store_get (c15_exec [] [OpUpsert 3 (example_row 3 3 9 1 100%Z); OpDelete example_key;
+                          OpUpsert 3 (example_row 1 1 0 2 0%Z)]) example_key
+  = Some (example_row 1 1 1 2 0%Z).
+Proof. vm_compute. reflexivity. Qed.
+
+(* c15_route_generation_saturates: at 2^64-1 a lease change is accepted and the
+   route generation cannot grow *)
+Example c15_route_generation_saturates :
+  let a := example_row 1 1 u64max 1 100%Z in
+  let b := example_row 1 1 u64max 1 200%Z in
+  store_get (c15_exec [] [OpUpsert 3 a; OpUpsert 3 (example_row 1 1 0 1 200%Z)]) example_key = Some b
+  /\ runtimeRouteChanged a b = true /\ rm_route_generation b = rm_route_generation a.
+Proof. vm_compute. repeat split; reflexivity. Qed.
+
+(* the strict per-field reading "leader epoch never decreases" is false of the
+   code: a higher channel epoch may carry a lower leader epoch *)
+Example c15_leader_epoch_only_lexicographic :
+  exists pre ops a b,
+    store_get (c15_exec [] pre) example_key = Some a
+    /\ (forall op, In op ops -> op_deletes op example_key = false)
+    /\ store_get (c15_exec [] (pre ++ ops)) example_key = Some b
+    /\ rm_leader_epoch b < rm_leader_epoch a.
+Proof.
+  exists [OpUpsert 3 (example_row 1 5 0 1 100%Z)], [OpUpsert 3 (example_row 2 0 0 1 100%Z)],
+         (example_row 1 5 5 1 100%Z), (example_row 2 0 6 1 100%Z).
+  split; [vm_compute; reflexivity|]. split.
+  - intros op [<-|[]]. reflexivity.
+  - split; vm_compute; reflexivity.
+Qed.
